@@ -8,6 +8,9 @@ UNITS = [
          contract='should_sync_on_hello: missing graph => Ok(true); Ok(false) only if own hello head == advertised address or get_location(advertised) is Some; never mutates storage', **RT),
     Kani(MC + 'c19_hello_head_frame', fns=[Fn(C, 'hello_head', CI)], stubs=['synthetic_head'],
          contract='hello_head reads the committed heads once and never mutates storage', **RT),
+    Kani('storage::linear::verif_kani::c19_commit_heads_cache_follows_backend', fns=[Fn('crates/aranya-runtime/src/storage/linear/mod.rs', 'commit_heads', r'impl<F: Write> Storage for LinearStorage<F>')],
+         contract='LinearStorage::commit_heads, any backend outcome: backend commit called once with the new heads and fact-cache offset; on failure get_heads still serves the '
+                  'previously committed head set (what hello_head / should_sync_on_hello read); on success the new one', **RT),
 ]
 TRUSTED = KT_TRUSTED + ['synthetic_head replaced by its contract (a function of the head set; C04/C01 carry its determinism)']
 ASSUMPTIONS = ['"advertised head present => every command of the peer present" is ancestry closure of the committed graph: written, not machine-checked',
@@ -19,3 +22,5 @@ MANIFEST = {
     'note': 'Mechanism contract only (PROVED-LOCAL); havoc traits; synthetic_head stubbed by its contract.',
     'technique': 'Kani trace contracts over havoc trait implementations (ghost event log) + CBMC',
 }
+
+HARNESS_FILES = ['kani/aranya-runtime/transaction.rs', 'kani/aranya-runtime/client.rs', 'kani/aranya-runtime/mocks.rs', 'kani/aranya-runtime/linear_mod.rs']
